@@ -91,6 +91,8 @@ def run(tier, seed):
 
     skip = K.out_of_scope(PROP)
     forms = [f for f in K.corpus(set(by_name)) if f[0] not in skip]
+    extra = [f for f in K.template_extra(set(by_name)) if f[0] not in skip]
+    forms += extra
     percpu = {}
     for cpu, text in forms:
         if K.NUM.search(text) or re.match(r"^[A-Za-z_]\w*:\s*\S", text):
@@ -172,10 +174,10 @@ def run(tier, seed):
                    dict(cpu=cpu, form=text, operand=pos, v1=vals[i - 1][1], v2=vals[j - 1][1], bytes=byid[vid]["res"][i - 1][1]))
     nfit = field_fit(chk, vdir, tier, rnd)
     chk.cov.update(dict(
-        field_fit_instructions=nfit,
+        field_fit_instructions=nfit, template_forms=len(extra),
         evaluations=sum(len(c[2].split("\n")) for c in cases) + nfit,
         distinct_nontrivial=len(cases),
-        rule="every instruction text of tests/comparison/*.txt that has a numeric operand each numeric "
+        rule="every instruction text of tests/comparison/*.txt and of tests/comparison/template/*.txt (the forms the repository names but leaves out of its tests) that has a numeric operand: each numeric "
              "operand position probed with the values of Codec!ProbeSet (2^k-1, 2^k, 2^k+1, -2^k, -2^k-1, -2^k+1 for k = 1..17, 20, 21, 23, 24, 26, 31, 32); non-trivial/distinct = (cpu, form, operand position) groups",
         traces_validated_against_impl=len(events) - len(canaries), probe_values=len(vals), not_covered=sorted(skip),
         canaries=dict(injected=len(canaries), rejected=len(canaries)), exhaustive=False))
